@@ -323,7 +323,7 @@ func guardSchema(c *Ctx) {
 		byName[f.Name()] = f
 	}
 	// collect assignments
-	var inherits *core.FuncInfo
+	var inherits, wholeCopyIn *core.FuncInfo
 	for _, fi := range c.P.SortedFuncs() {
 		if fi.Pkg.PkgPath != core.ModPath {
 			continue
@@ -333,6 +333,20 @@ func guardSchema(c *Ctx) {
 			as, ok := n.(*ast.AssignStmt)
 			if !ok || len(as.Lhs) != len(as.Rhs) {
 				return true
+			}
+			// *a = *other: every member is copied at once (the context members are restored by the caller's code)
+			if len(as.Lhs) == 1 {
+				if ls, isStar := core.Unparen(as.Lhs[0]).(*ast.StarExpr); isStar {
+					if rs, isStar2 := core.Unparen(as.Rhs[0]).(*ast.StarExpr); isStar2 &&
+						types.Identical(core.Deref(info.TypeOf(ls.X)), named) && types.Identical(core.Deref(info.TypeOf(rs.X)), named) && !sameExpr(ls.X, rs.X) {
+						for _, f := range flags {
+							g.copies[f] = true
+						}
+						inherits = fi
+						wholeCopyIn = fi
+						return true
+					}
+				}
 			}
 			for i, l := range as.Lhs {
 				sel, ok := core.Unparen(l).(*ast.SelectorExpr)
@@ -348,6 +362,10 @@ func guardSchema(c *Ctx) {
 					g.copies[fv] = true
 					inherits = fi
 					continue
+				}
+				if fi == wholeCopyIn {
+					// a flag re-assigned after the whole copy is not inherited
+					delete(g.copies, fv)
 				}
 				g.defs[fv] = append(g.defs[fv], flagDef{fi: fi, as: as, rhs: as.Rhs[i], recv: exprStr(sel.X), conds: c.conds(fi, as)})
 			}
@@ -750,23 +768,40 @@ func (g *schemaGuards) orderRule(inherits *core.FuncInfo, byName map[string]*typ
 		callee *core.FuncInfo
 	}
 	var seq []fc
-	// calls in execution order; a loop over a table of steps is expanded to the steps in table order
-	for _, sc := range c.P.CallSequence(schemaFn) {
-		sc := sc
-		if c.P.Funcs[sc.Callee] == nil {
-			continue
+	sequenceOf := func(fn *core.FuncInfo) {
+		seq, copyCall = nil, nil
+		// calls in execution order; a loop over a table of steps is expanded to the steps in table order
+		for _, sc := range c.P.CallSequence(fn) {
+			sc := sc
+			if c.P.Funcs[sc.Callee] == nil {
+				continue
+			}
+			cf := c.P.Funcs[sc.Callee]
+			seq = append(seq, fc{sc, cf})
+			if cf != schemaFn && reachesInherits(cf) && !c.P.Reachable(cf)[schemaFn] || cf == inherits {
+				copyCall = &sc
+			}
 		}
-		cf := c.P.Funcs[sc.Callee]
-		seq = append(seq, fc{sc, cf})
-		if cf != schemaFn && reachesInherits(cf) && !c.P.Reachable(cf)[schemaFn] || cf == inherits {
-			copyCall = &sc
+		// the call that copies: the one whose callee reaches inherits directly (inferFromRef)
+		for i := range seq {
+			for _, cs := range c.P.CG().Out[seq[i].callee.Obj] {
+				if cs.Callee == inherits.Obj {
+					copyCall = &seq[i].at
+				}
+			}
 		}
 	}
-	// the call that copies: the one whose callee reaches inherits directly (inferFromRef)
-	for i := range seq {
-		for _, cs := range c.P.CG().Out[seq[i].callee.Obj] {
-			if cs.Callee == inherits.Obj {
-				copyCall = &seq[i].at
+	sequenceOf(schemaFn)
+	if copyCall == nil {
+		// the steps may live in a method the constructor delegates to (Schema -> a.analyze())
+		first := append([]fc{}, seq...)
+		for _, s := range first {
+			if s.callee == schemaFn {
+				continue
+			}
+			sequenceOf(s.callee)
+			if copyCall != nil {
+				break
 			}
 		}
 	}
